@@ -881,7 +881,8 @@ def corrupt(traces, how):
             # sqlite fails the COMMIT of an insert and the insert call is claimed to have returned all the same
             for i, e in enumerate(evs):
                 if e["a"] == "Fail" and i >= 1 and evs[i - 1]["a"] == "Exec" and evs[i - 1]["d"] == e["d"]:
-                    return [dict(t, events=evs[:i + 1] + [{"a": "Return", "r": evs[i - 1]["r"]}] + evs[i + 1:])]
+                    # (the trace ends there: the invariant stays broken in every later state)
+                    return [dict(t, events=evs[:i + 1] + [{"a": "Return", "r": evs[i - 1]["r"]}])]
         elif how == "failed-commit-took-effect":
             # the COMMIT that sqlite failed is claimed to have made its transaction durable: what the fresh process
             # read back (the observation is left as recorded) no longer matches
@@ -896,7 +897,7 @@ def corrupt(traces, how):
                     acked.add(e["r"])
                 elif e["a"] == "Exec" and e["r"] in acked and e["mode"] == "ignore" and e["v"] > 1 \
                         and evs[i + 1:i + 2] == [{"a": "Commit", "d": e["d"]}]:
-                    return [dict(t, events=evs[:i] + [dict(e, mode="replace")] + evs[i + 1:])]
+                    return [dict(t, events=evs[:i] + [dict(e, mode="replace")] + evs[i + 1:i + 2])]
         elif how == "child-before-parent":
             # the metadata of a credential is written (and committed) before the token it points to
             for m, rec in enumerate(t["recs"], 1):
@@ -1069,7 +1070,7 @@ def run(tier, seed, replay=None):
                          # records that are stored again in another form (same key, other bytes), before and after
                          # ordinary inserts and restarts
                          ("forms", SCRIPTED["forms"], False, (),
-                          dict({"from_item": True}, **({"sample": 12, "rng": random.Random(seed + 31)} if quick else {}))),
+                          dict({"from_item": True}, **({"sample": 9, "rng": random.Random(seed + 31)} if quick else {}))),
                          # sqlite refuses a COMMIT (rolled back / kept) at every COMMIT of the workload, the
                          # application carries on, then the kill
                          ("faults", SCRIPTED["faults"], False, (), {"faults": True, "both": not quick, "seed": seed})]
